@@ -566,15 +566,28 @@ func c16PrefixSums(r *core.Report) {
 	var rsFound *ast.RangeStmt
 	ast.Inspect(f.Body, func(n ast.Node) bool {
 		rs, ok := n.(*ast.RangeStmt)
-		if !ok || core.ObjOf(info, rs.X) != types.Object(sizes) || rs.Value == nil {
+		if !ok || core.ObjOf(info, rs.X) != types.Object(sizes) || (rs.Value == nil && rs.Key == nil) {
 			return true
 		}
 		rsFound = rs
-		var key types.Object
+		var key, val types.Object
 		if rs.Key != nil {
 			key = core.ObjOf(info, rs.Key)
 		}
-		val := core.ObjOf(info, rs.Value)
+		if rs.Value != nil {
+			val = core.ObjOf(info, rs.Value)
+		}
+		// the size of the current segment: the range value, or sizes[key]
+		isElem := func(e ast.Expr) bool {
+			e = core.Unparen(e)
+			if o := core.ObjOf(info, e); o != nil && val != nil && o == val {
+				return true
+			}
+			if ix, ok := e.(*ast.IndexExpr); ok && key != nil && core.ObjOf(info, ix.X) == types.Object(sizes) && core.ObjOf(info, ix.Index) == key {
+				return true
+			}
+			return false
+		}
 		for _, st := range rs.Body.List {
 			as, ok := st.(*ast.AssignStmt)
 			if !ok || len(as.Lhs) != 1 || len(as.Rhs) != 1 {
@@ -593,7 +606,7 @@ func c16PrefixSums(r *core.Report) {
 					store = g.NodeOf(as.Pos())
 				}
 			}
-			if _, addend, isAdd := addStep(info, as); isAdd && addend != nil && core.ObjOf(info, addend) == val {
+			if _, addend, isAdd := addStep(info, as); isAdd && addend != nil && isElem(addend) {
 				if total == nil || core.ObjOf(info, as.Lhs[0]) == total {
 					add = g.NodeOf(as.Pos())
 					if total == nil {
@@ -835,10 +848,31 @@ func c16ReadAtEOF(r *core.Report) {
 	okRel := false
 	ast.Inspect(f.Body, func(n ast.Node) bool {
 		rs, ok := n.(*ast.RangeStmt)
-		if !ok || rs.Key == nil || rs.Value == nil || !strings.HasSuffix(core.ExprStr(rs.X), ".offsets") {
+		if !ok || rs.Key == nil || !strings.HasSuffix(core.ExprStr(rs.X), ".offsets") {
 			return true
 		}
-		key, val := core.ObjOf(info, rs.Key), core.ObjOf(info, rs.Value)
+		key := core.ObjOf(info, rs.Key)
+		var val types.Object
+		if rs.Value != nil {
+			val = core.ObjOf(info, rs.Value)
+		}
+		// the start of segment i: the range value, offsets[key], or a local assigned once from either
+		var isStart func(e ast.Expr, depth int) bool
+		isStart = func(e ast.Expr, depth int) bool {
+			e = core.Unparen(e)
+			if o := core.ObjOf(info, e); o != nil && val != nil && o == val {
+				return true
+			}
+			if ix, ok := e.(*ast.IndexExpr); ok && core.ExprStr(ix.X) == core.ExprStr(rs.X) && core.ObjOf(info, ix.Index) == key {
+				return true
+			}
+			if o := core.ObjOf(info, e); o != nil && depth < 2 {
+				if d := singleDef(f, o); d != nil && d.Pos() >= rs.Body.Pos() && d.End() <= rs.Body.End() {
+					return isStart(d, depth+1)
+				}
+			}
+			return false
+		}
 		ast.Inspect(rs.Body, func(x ast.Node) bool {
 			c, ok := x.(*ast.CallExpr)
 			if !ok || len(c.Args) != 2 {
@@ -852,7 +886,7 @@ func c16ReadAtEOF(r *core.Report) {
 			if !ok || core.ObjOf(info, ix.Index) != key {
 				return true
 			}
-			if be, ok := core.Unparen(c.Args[1]).(*ast.BinaryExpr); ok && be.Op == token.SUB && core.ObjOf(info, be.Y) == val && f.ParamObj(1) != nil && core.ObjOf(info, be.X) == types.Object(f.ParamObj(1)) {
+			if be, ok := core.Unparen(c.Args[1]).(*ast.BinaryExpr); ok && be.Op == token.SUB && isStart(be.Y, 0) && f.ParamObj(1) != nil && core.ObjOf(info, be.X) == types.Object(f.ParamObj(1)) {
 				okRel = true
 			}
 			return true
